@@ -646,6 +646,12 @@ def _slice_cases(run, ix, rows):
                               f"cut sign vector {tuple(sorted(row))} goes to branch(es) {which or 'none'}, whose `np.where(. == v)[1]` must find exactly one vertex of the row "
                               f"(and the two inside vertices for the quad branch)",
                               key=key_of("C11-R7", tuple(sorted(row))))
+    from ..passthrough import pass_through_rule
+    pass_through_rule(run, ix, "R15", "C11", "trimesh.path.polygons:edges_to_polygons", "enclosure_tree",
+                      "edges_to_polygons (cap / outline polygons): every result with more than one ring is assembled from the containment tree (enclosure_tree); only the "
+                      "empty / single-ring case may return before it",
+                      "which ring is a shell and which rings are ITS holes is a parity question (a body inside a cavity is a shell again); a shortcut that asks only `contained by "
+                      "something` makes islands inside holes into holes, so caps of nested solids get the wrong area")
     from ..interiorpt import hole_seed_rule
     hole_seed_rule(run, ix, "R14", "C11")
     run.floor("slice sign vectors", n6, 27)
